@@ -33,10 +33,10 @@ impl<T> SendBuffer<T> {
     /// [`SendBuffer`] can only buffer one frame at a time. If you write a new frame to the buffer before the previous
     /// frame is sent, the previous frame will be overwritten.
     pub fn write(&self, frame: T) {
-        self.tx_waker.wake_by(Signals::TRANSPORT);
-        #[cfg(genmeta_gm_quic_verif)]
-        qbase::verif::sched_point("SendBuffer::write:between-wake-and-store");
         *self.item.lock().unwrap() = Some(frame);
+        #[cfg(genmeta_gm_quic_verif)]
+        qbase::verif::sched_point("SendBuffer::write:between-store-and-wake");
+        self.tx_waker.wake_by(Signals::TRANSPORT);
     }
 }
 
